@@ -470,9 +470,16 @@ async fn consume(svc: &s3s::service::S3Service, req: s3s::HttpRequest, consumer:
     Ok(Timed { resp: Resp { status: parts.status, headers: parts.headers, frames, trailers, body_error }, end_ms, data_after_end, hang })
 }
 
+/// the document after an optional XML declaration and any XML white space around it (None: something else comes first)
 fn strip_decl_and_space(body: &str) -> Option<&str> {
-    let rest = body.strip_prefix("<?xml version=\"1.0\" encoding=\"UTF-8\"?>")?;
-    Some(rest.trim_start_matches([' ', '\t', '\r', '\n']))
+    let ws = [' ', '\t', '\r', '\n'];
+    let rest = body.trim_start_matches(ws);
+    let rest = match rest.strip_prefix("<?xml") {
+        Some(r) => &r[r.find("?>")? + 2..],
+        None => rest,
+    };
+    let rest = rest.trim_start_matches(ws);
+    rest.starts_with('<').then_some(rest)
 }
 
 /// wire text of a header-bound member, read off the Debug rendering of the output (independent of the serializer).
@@ -601,7 +608,7 @@ fn part_keepalive(acc: &mut Acc, tier: Tier) -> serde_json::Value {
         // body = declaration, XML whitespace, then the same document as the immediate answer
         let body = t.resp.body_str();
         let Some(doc) = strip_decl_and_space(&body) else {
-            bad(a, "no-declaration", "the body does not start with the XML declaration".into());
+            bad(a, "no-document", "after optional declaration and white space the body does not start with an element".into());
             return;
         };
         match &refs[*oi] {
@@ -633,7 +640,10 @@ fn part_keepalive(acc: &mut Acc, tier: Tier) -> serde_json::Value {
             Consumer::Slow(ms) => ms * (t.resp.frames.len() as u64 + 3),
             _ => 0,
         };
-        if t.end_ms > backend_ms + 100 + slack {
+        // (the statement sets no latency bound; what is asked is that completion is noticed at all - a generous 5 s, where the
+        //  implementation at hand ends within one 100 ms tick; the measured end times are in the evidence)
+        a.count(&format!("stream ended {:>4} ms after the backend completed", (t.end_ms.saturating_sub(backend_ms + slack) / 50) * 50), 1);
+        if t.end_ms > backend_ms + 5_000 + slack {
             bad(a, "late-end", format!("the backend finished at {backend_ms} ms, the stream ended at {} ms", t.end_ms));
         }
         match outcome {
